@@ -147,8 +147,8 @@ def run(ctx):
             continue
         try:
             comps, how = c03._components(repo, ci, dim)
-        except fold.NotLiteral:
-            continue
+        except fold.NotLiteral as ex:
+            raise AnalysisError(f'eigen-components of {cq} can no longer be extracted ({ex})')
         bad = None
         nonparam = None
         for e in PROBES:
